@@ -868,14 +868,95 @@ Proof.
   match type of H with (let '(_, _) := run ?X in _) = _ => destruct (run X) as [r m3a] eqn:ER; set (m2 := X) in * end.
   assert (L2 : slen m2 = if loc then S (slen m) else slen m).
   { subst m2. destruct loc; [rewrite push_len|]; reflexivity. }
-  destruct O as [O1 O2].
-  destruct r; inversion H; subst; try congruence.
-  - rewrite (fun p => p : slen (if loc then pop m3a else m3a) = slen m); [reflexivity|].
-    pose proof (Hr _ _ _ ER (conj ltac:(discriminate) ltac:(discriminate))) as L3.
-    destruct loc; [rewrite pop_len|]; lia.
-  - cbn in *. match goal with |- slen (if loc then pop ?X else ?X) = _ => assert (LX : slen X = slen m3a) by reflexivity end.
-    pose proof (Hr _ _ _ ER (conj ltac:(discriminate) ltac:(discriminate))) as L3.
-    destruct loc; [rewrite pop_len|]; lia.
-  - pose proof (Hr _ _ _ ER (conj ltac:(discriminate) ltac:(discriminate))) as L3.
-    destruct loc; [rewrite pop_len|]; lia.
+  destruct r; cbn [fst snd] in H; inversion H; subst; try (destruct O as [O1 O2]; congruence);
+    pose proof (Hr _ _ _ ER (conj ltac:(discriminate) ltac:(discriminate))) as L3;
+    destruct loc; cbv iota beta in *; rewrite ?pop_len; unfold slen in *; cbn [m_cnts stack] in *; lia.
 Qed.
+
+Lemma next_hidden_len : forall ofuel m v m', next_hidden ofuel m = Some (v, m') -> slen m' = slen m.
+Proof.
+  intros ofuel m v m' H. unfold next_hidden in H. destruct (last (stack m) (LVal VNil)).
+  - inversion H; subst. reflexivity.
+  - unfold slen. rewrite (m_next_stack _ _ _ _ _ H). reflexivity.
+Qed.
+
+Lemma set_loopvar_len : forall m v, slen (set_loopvar m v) = slen m.
+Proof. intros. unfold slen, set_loopvar. cbn [stack m_stack]. apply upd_length. Qed.
+
+Lemma exec_stmt_stack : forall rec k ofuel loc d s m c m',
+  (forall d ss m c m', rec d ss m = (c, m') -> ok_ctl c -> slen m' = slen m) ->
+  exec_stmt rec k ofuel loc d s m = (c, m') -> ok_ctl c -> slen m' = slen m.
+Proof.
+  intros rec k ofuel loc d s m c m' Hrec H O. destruct s; cbn [exec_stmt] in H.
+  - inversion H; subst. reflexivity.
+  - inversion H; subst. reflexivity.
+  - destruct (eval_iter e (push (marker m) (LVal VNil))) as [id m2] eqn:EI.
+    match type of H with (let '(_, _) := ?X in _) = _ => destruct X as [c5 m5] eqn:EF end.
+    assert (L2 : slen m2 = S (slen m)).
+    { unfold slen. rewrite (eval_iter_stack _ _ _ _ EI). fold (slen (push (marker m) (LVal VNil))). rewrite push_len. reflexivity. }
+    assert (L5 : ok_ctl c5 -> slen m5 = S (S (slen m))).
+    { intros O5. rewrite (for_rounds_len slen _ _ _ (next_hidden_len ofuel) set_loopvar_len
+                             (wrap_body_len loc d _ (Hrec (S d) body)) _ _ _ _ EF O5).
+      unfold slen at 1. cbn [m_cnts stack]. fold (slen (push m2 (LIter id))). rewrite push_len, L2. reflexivity. }
+    destruct O as [O1 O2].
+    destruct c5; inversion H; subst; try congruence;
+      rewrite (fun p => p : slen (marker (pop (pop m5))) = slen (pop (pop m5))) by reflexivity;
+      rewrite !pop_len, L5 by (split; discriminate); lia.
+  - destruct (nth d0 (cnts m) 0 =? k0).
+    + eapply Hrec; eauto.
+    + inversion H; subst. reflexivity.
+  - inversion H; subst. reflexivity.
+  - inversion H; subst. reflexivity.
+  - inversion H; subst. reflexivity.
+  - destruct (eval_iter e m) as [id m1] eqn:EI. inversion H; subst. unfold slen. cbn [m_slots stack].
+    rewrite (eval_iter_stack _ _ _ _ EI). reflexivity.
+  - destruct (m_next ofuel (nth n (slots m) 0) m) as [[v m1]|] eqn:EN; inversion H; subst; [|reflexivity].
+    unfold slen. cbn [m_print stack]. rewrite (m_next_stack _ _ _ _ _ EN). reflexivity.
+  - inversion H; subst. reflexivity.
+  - inversion H; subst. reflexivity.
+  - cbn in H. inversion H; subst. reflexivity.
+  - destruct (eval_iter e m) as [id m1] eqn:EI.
+    destruct (collect_loop k ofuel (ms m1) id) as [cc [[acc v] s]].
+    destruct cc; inversion H; subst; unfold slen; cbn [m_print m_store stack]; rewrite (eval_iter_stack _ _ _ _ EI); reflexivity.
+  - destruct (eval_iter e m) as [id m1] eqn:EI.
+    destruct (fold_loop k ofuel (apply_rd g) init (ms m1) id) as [cc [[acc v] s]].
+    destruct cc; inversion H; subst; unfold slen; cbn [m_print m_store stack]; rewrite (eval_iter_stack _ _ _ _ EI); reflexivity.
+Qed.
+
+(* for_leaves_no_state ("break and continue leave no iteration state behind"): whatever a statement list does -
+   loops ending normally, by break, continue rounds, nested loops, loops over shared iterators - the stack of
+   hidden locals is as high afterwards as it was before, unless the function returned (the frame is discarded
+   as a whole) or the model ran out of fuel *)
+Theorem exec_stack : forall k ofuel loc d ss m c m', exec k ofuel loc d ss m = (c, m') -> ok_ctl c -> slen m' = slen m.
+Proof.
+  induction k as [|k IH]; intros ofuel loc d ss m c m' H O.
+  - cbn in H. inversion H; subst. destruct O; congruence.
+  - cbn [exec] in H. destruct ss as [|s rest]; [inversion H; subst; reflexivity|].
+    destruct (exec_stmt (exec k ofuel loc) k ofuel loc d s m) as [c1 m1] eqn:E1.
+    assert (L1 : ok_ctl c1 -> slen m1 = slen m).
+    { intros O1. eapply exec_stmt_stack; [|exact E1|exact O1]. intros; eapply IH; eauto. }
+    destruct c1; try (inversion H; subst; apply L1; exact O).
+    rewrite (IH _ _ _ _ _ _ _ H O). apply L1. split; discriminate.
+Qed.
+Print Assumptions exec_stack.
+
+(* the loop statement itself: the two hidden locals are gone on every exit path that stays in the function *)
+Corollary for_leaves_no_state : forall k ofuel loc d e body m c m',
+  exec (S k) ofuel loc d [SFor e body] m = (c, m') -> ok_ctl c -> length (stack m') = length (stack m).
+Proof. intros. eapply (exec_stack (S k)); eauto. Qed.
+
+(* for_loop_visits_elements, on the mini-language: a for loop over a fresh chain whose body only prints the
+   loop variable prints exactly chain_spec (elements) - checked here on an instance by computation; the general
+   statement is for_rounds_visits (any body that keeps the iterator's denotation) + lang_chain_collect_reduce *)
+Example for_loop_example :
+  eval_mech (mkProg true false [SFor (EFilter (GtK 0) (EMap (AddK (-2)) (EVec [VNum 1; VNum 5; VNum 2; VNum 7]))) [SPrintVar 0; SIf 0 2 [SBreak]]])
+  = map b ["#0"; "3"; "5"; "#0"; "end"]%string.
+Proof. vm_compute. reflexivity. Qed.
+
+(* break out of nested loops over one shared iterator: nothing is left on the stack, the iterator keeps its place *)
+Example shared_iterator_example :
+  eval_mech (mkProg true true [SLet 0 (ERange 0 6);
+                              SFor (ESlot 0) [SPrintVar 0; SFor (ESlot 0) [SPrintVar 1; SIf 1 2 [SBreak]]; SIf 0 1 [SBreak]];
+                              SNext 0])
+  = map b ["#0"; "0"; "#3"; "1"; "2"; "#3"; "#0"; "3"; "111"; "222"; "end"]%string.
+Proof. vm_compute. reflexivity. Qed.
